@@ -371,6 +371,12 @@ def projects(draw):
                     if star:
                         path = []
             elif kind == "from-rel":
+                if draw(st.integers(0, 7)) == 0:
+                    # more dots than the importing file has packages below the scanned root (a guarded import in a package that
+                    # can also live inside a bigger one): names nothing internal - no edge, and the other statements keep theirs
+                    sites.append({"kind": "from", "level": len(pkg) + draw(st.integers(1, 2)), "module": draw(st.sampled_from([None, "shared", "a"])),
+                                  "names": [(draw(st.sampled_from(["thing", "a", "m"])), None)], "form": "rel-above-root", "path": path})
+                    continue
                 level = draw(st.integers(1, len(pkg)))
                 base_parts = pkg[: len(pkg) - (level - 1)]
                 base = ".".join(base_parts)
